@@ -66,6 +66,7 @@ type Program struct {
 	Failing     string        // non-empty: a generated statement that fails on its own (kind)
 	FailLine    int
 	Broken      string // non-empty: the program contains this syntactically broken tag
+	BrokenLine  int    // ... which begins on this line of the main template
 }
 
 // TolerantUse is one place where the never-bound identifier zz was written.
@@ -1337,6 +1338,7 @@ func genProgram(t *rapid.T, o genOpts) *Program {
 				k = o.brokenKinds[g.intn("brokenkindsel", 0, len(o.brokenKinds)-1)]
 			}
 			p.Broken = brokenTags[k]
+			p.BrokenLine = g.cur.line
 			g.feat("broken_tag")
 			g.cur.write(brokenTags[k])
 			g.nl()
